@@ -430,6 +430,8 @@ def _build(desc):
                 if desc['cls'] in ('dt_on', 'ct_on'):
                     raise
     apply_config(spec, prior, desc)
+    if prior.get('reset_after'):
+        api('reset', spec.reset)          # an online monitor that was used under the earlier configuration starts a new episode
     if desc.get('pastify'):
         api('pastify', spec.pastify)
     return spec
